@@ -1089,40 +1089,21 @@ func (x *executor) step(line string) string {
 			return "trace " + fmtRec(r) + " text=" + encB(string(r.text))
 		})
 	case t[0] == "u-render" && len(t) == 2:
-		return protect(func() string {
-			ms, allow := mux.VerifMethodEntity(atoi(t[1]))
-			return "render " + encMethods(ms) + " " + encB(allow)
-		})
+		return protect(func() string { return hookRender(atoi(t[1])) })
 	case t[0] == "u-split" && len(t) == 2:
-		return protect(func() string { return "split " + encL(mux.VerifSplitString(decB(t[1]))) })
+		return protect(func() string { return hookSplit(decB(t[1])) })
 	case t[0] == "u-lp" && len(t) == 3:
-		return protect(func() string { return fmt.Sprintf("lp %d", mux.VerifLongestPrefix(decB(t[1]), decB(t[2]))) })
+		return protect(func() string { return hookLP(decB(t[1]), decB(t[2])) })
 	case t[0] == "u-seg" && len(t) == 3:
-		return protect(func() string {
-			seg, err := mux.VerifNewSegment(icptRules(t[1]), decB(t[2]))
-			if err != nil {
-				return classify(err)
-			}
-			return fmt.Sprintf("seg kind=%d name=%s ign=%s rule=%s suffix=%s endpoint=%s amb=%d", seg.Type, encB(seg.Name), b2s(seg.IgnoreName),
-				encB(seg.Rule), encB(seg.Suffix), b2s(seg.Endpoint), seg.AmbiguousLength)
-		})
+		return protect(func() string { return hookSeg(icptRules(t[1]), decB(t[2])) })
 	case t[0] == "u-match" && len(t) == 4:
-		return protect(func() string {
-			ok, ps, rest, err := mux.VerifMatch(icptRules(t[1]), decB(t[2]), decB(t[3]))
-			if err != nil {
-				return classify(err)
-			}
-			if !ok {
-				return "m 0"
-			}
-			return fmt.Sprintf("m 1 params=%s rest=%s", encMap(ps), encB(rest))
-		})
+		return protect(func() string { return hookMatch(icptRules(t[1]), decB(t[2]), decB(t[3])) })
 	case t[0] == "dump" && len(t) == 2:
 		r := x.routers[atoi(t[1])]
 		if r == nil {
 			return "bad-op no-router"
 		}
-		return protect(func() string { return "dump " + r.VerifDump() })
+		return protect(func() string { return hookDump(r) })
 	case t[0] == "pf" && len(t) == 3:
 		return "ok"
 	case t[0] == "ctx-new" && len(t) == 2:
